@@ -158,6 +158,18 @@ CLAIMS = {
               "key fails to verify (collision resistance and curve arithmetic), and optimality of Huffman depths beyond the algorithm's shape."),
         technique="structured-listing extraction + sibling agreement + exhaustive guard decision tables + evaluated-constant comparison",
         design_ref="§4 C15"),
+    "C20": dict(
+        category="other",
+        text=("Table clauses decided (feature set serde,base64): writer keys of every keyed serde impl (own + flattened) are duplicate-free and "
+              "equal the keys the reader recognises; hand-written struct readers map key -> identifier -> accumulator -> constructed field as "
+              "the identity on field names; variant selection by present keys (ExtData, Params) maps each variant's written key set back to that "
+              "variant (exhaustive table over presence patterns); confidential Value/Asset/Nonce tag tables, payload transforms and declared "
+              "sequence lengths agree; every paired (de)serializer agrees on human-readable polarity and data-model shape; sighash string tables "
+              "are mutually inverse bijections and PsbtSighashType composes them with matching numeric tables; reversed-hex Display matches "
+              "FromStr's reverse; OutPoint prefix literal length equals the parser's slice offset; PSET text = base64 over the consensus codec "
+              "both ways. Value-level equality after a round trip is not evaluated. Found F20 (fixed) and F21 (known finding)."),
+        technique="writer/reader table extraction from MIR (derive-generated and hand-written impls) + exhaustive presence/decision tables",
+        design_ref="§4 C20"),
     "C17": dict(
         category="proof",
         text=("Proof by finite computation for the data-part clause: from the generator constants rustc evaluated out of /repo, all 31*N "
